@@ -12,6 +12,8 @@ GUARD   := LIBVATA_VERIF
 LIBSRCS := $(shell sed -n '/add_library(libvata/,/^)/p' $(REPO)/src/CMakeLists.txt | grep -o '[A-Za-z0-9_.-]*\.cc')
 LIBOBJS := $(patsubst %.cc,$(B)/lib/%.o,$(LIBSRCS))
 
+CLIOBJS := $(B)/cli/vata.o $(B)/cli/parse_args.o
+
 SIMSRCS := $(wildcard sim/*.cc)
 SIMOBJS := $(patsubst sim/%.cc,$(B)/sim/%.o,$(SIMSRCS))
 
@@ -39,18 +41,23 @@ $(B)/sim/%.o: sim/%.cc
 	@mkdir -p $(dir $@)
 	$(CXX) $(SIMFLAGS) -MMD -MP -c $< -o $@
 
+# the command-line tool, compiled into the harness with main renamed (compile-time seam, no /repo hook)
+$(B)/cli/%.o: $(REPO)/cli/%.cc
+	@mkdir -p $(dir $@)
+	$(CXX) $(LIBFLAGS) -I$(REPO)/cli -Dmain=vata_cli_main -DstartTime=startTime_cli -MMD -MP -c $< -o $@
+
 # the simulated heap reads block headers inside poisoned red zones: never instrumented
 SIMHEAP_DEF_san := -DVSIM_SAN=1
 $(B)/sim/simheap.o: sim/simheap.cc
 	@mkdir -p $(dir $@)
 	$(CXX) -std=c++17 -DNDEBUG -O1 -g1 -fno-builtin -fno-tree-loop-distribute-patterns -fno-omit-frame-pointer $(SIMHEAP_DEF_$(FLAVOR)) -Isim -Wall -MMD -MP -c $< -o $@
 
-$(B)/vsim: $(LIBOBJS) $(SIMOBJS)
-	$(CXX) $(OPT) -o $@ $(SIMOBJS) $(LIBOBJS) -lpthread
+$(B)/vsim: $(LIBOBJS) $(SIMOBJS) $(CLIOBJS)
+	$(CXX) $(OPT) -o $@ $(SIMOBJS) $(CLIOBJS) $(LIBOBJS) -lpthread
 
 clean:
 	rm -rf build
 
--include $(LIBOBJS:.o=.d) $(SIMOBJS:.o=.d)
+-include $(LIBOBJS:.o=.d) $(SIMOBJS:.o=.d) $(CLIOBJS:.o=.d)
 
 .PHONY: all clean
